@@ -56,6 +56,7 @@ class _Tunnel(Interface):
 
     __slots__ = (
         "_data_endpoint_addr",
+        "_disconnect_requested",
         "_heartbeat",
         "_reconnect_task",
         "_requested_address",
@@ -92,6 +93,7 @@ class _Tunnel(Interface):
         self._sequence_number_used = False
         self.cemi_received_callback = cemi_received_callback
         self._data_endpoint_addr: tuple[str, int] | None = None
+        self._disconnect_requested = False
         self._heartbeat = ConnectionHeartbeat(
             name="Tunnel",
             send_connectionstate=self._connectionstate_request,
@@ -133,6 +135,7 @@ class _Tunnel(Interface):
 
         Raise CommunicationError when not successful.
         """
+        self._disconnect_requested = False
         self.xknx.connection_manager.connection_state_changed(
             XknxConnectionState.CONNECTING, self.connection_type
         )
@@ -168,6 +171,10 @@ class _Tunnel(Interface):
 
     def _tunnel_lost(self) -> None:
         """Prepare for reconnection or shutdown when the connection is lost. Callback."""
+        if self._disconnect_requested:
+            # `disconnect()` is tearing the tunnel down already - a DisconnectRequest
+            # of the server or a lost transport crossing it shall not reconnect
+            return
         if self.auto_reconnect:
             # _tunnel_lost might be called multiple times when the transport receives
             # multiple invalid frames - ensure only one reconnect task is started
@@ -235,6 +242,7 @@ class _Tunnel(Interface):
 
     async def disconnect(self) -> None:
         """Disconnect tunneling connection."""
+        self._disconnect_requested = True
         self._prepare_disconnect()
         self._stop_reconnect()
         try:
